@@ -179,8 +179,8 @@ class MultiOperator(Operator):
         return self.operators[i]
 
     def __mul__(self, other):
-        self.append(other)
-        return self
+        # a new group: `block * op` leaves `block` as it is
+        return MultiOperator(self.operators + [other])
 
     def append(self, op):
         """add a new operator to the existing list"""
